@@ -418,10 +418,45 @@ func ruleC09LoopInfo(p *Prog, a *Anchors, r *Report) {
 		return
 	}
 	idx, count := ssa.Value(item.Params[0]), ssa.Value(item.Params[1])
+	// a helper the callback hands idx and count to (advanceForLoopInfo(info, idx, count))
+	helperIdx := map[*ssa.Function][2]ssa.Value{}
+	for _, b := range item.Blocks {
+		for _, in := range b.Instrs {
+			ci, ok := in.(ssa.CallInstruction)
+			if !ok || ci.Common().StaticCallee() == nil || !p.InPkg(ci.Common().StaticCallee()) || ci.Common().StaticCallee().Blocks == nil {
+				continue
+			}
+			h := ci.Common().StaticCallee()
+			var hi, hc ssa.Value
+			for ai, arg := range ci.Common().Args {
+				if ai < len(h.Params) {
+					if arg == idx {
+						hi = h.Params[ai]
+					}
+					if arg == count {
+						hc = h.Params[ai]
+					}
+				}
+			}
+			if hi != nil && hc != nil {
+				helperIdx[h] = [2]ssa.Value{hi, hc}
+			}
+		}
+	}
 	want := map[string]linForm{"Counter": {1, 0, 1}, "Counter0": {1, 0, 0}, "Revcounter": {-1, 1, 0}, "Revcounter0": {-1, 1, -1}}
 	st := li.Underlying().(*types.Struct)
 	assigned := map[string]bool{}
-	for _, fn := range withClosures(f) {
+	scan := withClosures(f)
+	for h := range helperIdx {
+		scan = append(scan, h)
+	}
+	for _, fn := range scan {
+		idx, count := idx, count
+		inItem := fn == item
+		if hv, ok := helperIdx[fn]; ok {
+			idx, count = hv[0], hv[1]
+			inItem = true
+		}
 		for _, b := range fn.Blocks {
 			for _, in := range b.Instrs {
 				s, ok := in.(*ssa.Store)
@@ -436,7 +471,7 @@ func ruleC09LoopInfo(p *Prog, a *Anchors, r *Report) {
 				assigned[fld] = true
 				key := "forloop." + fld
 				if w, isNum := want[fld]; isNum {
-					if fn != item {
+					if !inItem {
 						r.Bad(key, p.InstrPos(in), "%s is assigned outside the per-item callback", fld)
 						continue
 					}
@@ -452,7 +487,7 @@ func ruleC09LoopInfo(p *Prog, a *Anchors, r *Report) {
 				}
 				switch fld {
 				case "First", "Last":
-					if fn != item {
+					if !inItem {
 						if bv, isC := constBool(s.Val); isC && fld == "First" && bv {
 							r.OK(key+":init", p.InstrPos(in), "First starts true")
 						} else if fld == "First" {
